@@ -30,7 +30,7 @@ Definition ex_history : list (bool * op) :=
    (true, OCollapseDepth 1 1 false false); (true, OCollapseSup (7#8) false)].
 
 Ltac side_tac :=
-  simpl side;
+  unfold side; cbn [snd fst];
   repeat match goal with
          | |- True => exact I
          | |- _ /\ _ => split
